@@ -117,6 +117,11 @@ def pe_cond(c, asg):
     if c[0] == 'not':
         r = pe_cond(c[1], asg)
         return None if r is None else not r
+    if c[0] in ('and', 'or'):
+        rs = [pe_cond(x, asg) for x in c[1]]
+        if c[0] == 'and':
+            return False if False in rs else (True if all(r is True for r in rs) else None)
+        return True if True in rs else (False if all(r is False for r in rs) else None)
     return None
 
 
@@ -534,6 +539,38 @@ def _store_value_ok(v, fam, slot, size, e):
             return True
         return False
     return v == low(rt, 8 * fam.size)
+
+
+def writeback_before_access(tr, base_idxs):
+    """(access event, write event) pairs where a base-register write precedes a memory access on some path."""
+    for w in tr.events:
+        if w.loops:
+            continue
+        if (w.kind == 'RegWrite' and w.d['idx'] in base_idxs) or w.kind == 'RmodeWrite':
+            for e in tr.events:
+                if e.idx > w.idx and e.kind in ('MemRead', 'MemWrite') and not exclusive(e, w):
+                    yield e, w
+
+
+def check_abort_ordering(run, repo, rule):
+    """The C02-O / C03-O ordering rule on all single and block load/store classes (shared with C14)."""
+    from . import c03
+    eff = Effects(repo)
+    bind = Binding(repo)
+    n = 0
+    for classes in (ls_classes(repo, bind), c03.bt_classes(repo, bind)):
+        for name, (ci, fams, encs) in sorted(classes.items()):
+            tr = Walker(repo, eff).walk(ci.methods['execute'], ci)
+            n += 1
+            seen = set()
+            for e, w in writeback_before_access(tr, (('field', 'n'), const(13))):
+                if e.kind in seen:
+                    continue
+                seen.add(e.kind)
+                run.violation(rule, ci.relpath, ci.name + '.execute', '%s after base write-back' % e.kind,
+                              'the base register is written back (`%s`) before the memory access `%s`: when that access aborts the '
+                              'base must be unchanged' % (w.text()[:80], e.text()[:80]))
+    return n
 
 
 def main(repo_path, tier, seed, replay=None):
